@@ -19,7 +19,7 @@
 (* One action per loop iteration of generatePartition so that partitions interleave, a       *)
 (* Flush action for the batch threshold, one action for assembleRoot.  The trie layer comes   *)
 (* from MPT.tla: a stack trie fed with sorted keys yields Canon of the key set.               *)
-EXTENDS MPT
+EXTENDS MPT, FlatCorrection
 
 CONSTANTS
   AcctKeys,     \* account hashes that may occur (model keys, subset of Keys)
@@ -210,7 +210,7 @@ Spec == Init /\ [][Next]_vars
 (* ------------------------------ the property ------------------------------ *)
 (* the state described by the flat data after correction *)
 Accounts0 == DOMAIN flat0.A
-CorrectedS == {e \in flat0.S : e[1] \in Accounts0}
+CorrectedS == CorrectedStorage(Accounts0, flat0.S)
 CorrectedKV == {<<a, AcctVal(a, SlotsOf(flat0.S, a))>> : a \in Accounts0}
 CanonRoot == Canon(CorrectedKV)
 CanonNodes == AcctNodes(CanonRoot, <<>>) \cup UNION {StorageNodes(a, SlotsOf(flat0.S, a)) : a \in Accounts0}
@@ -227,9 +227,7 @@ FlatCorrected == Finished => /\ DOMAIN flatA = Accounts0 /\ \A a \in Accounts0 :
 (* the node store holds exactly the canonical tries: opens at the root, nothing outside *)
 StoreExact == Finished => nodes = CanonNodes
 (* counters *)
-StatsExact == Finished => /\ stats.scanned = Cardinality(Accounts0)
-                          /\ stats.updated = Cardinality(Stale0)
-                          /\ stats.deleted = Cardinality(Dangling0)
+StatsExact == Finished => stats = ExpectedStats(Accounts0, Stale0, flat0.S)
 (* while running: nothing but dangling slots is ever deleted, accounts are never lost *)
 NeverLosesState == /\ DOMAIN flatA = Accounts0
                    /\ CorrectedS \subseteq flatS
